@@ -384,6 +384,39 @@ def caller_objects_untouched(rep):
     rep.extra["caller_object_formulas"] = n
 
 
+def later_rebinding(rep):
+    """a design keeps evaluating with the bindings it was built with: the caller re-binds a local that the
+    formula uses (a loop variable), replaces an entry of its extra_namespace dict, builds further designs
+    from the same function (plain API)"""
+    from formulae import design_matrices
+
+    df = pd.DataFrame({"y": [1.0, 2.0, 0.5, 4.0], "x": [1.0, 2.0, 3.0, 5.0]})
+
+    def bad(what, detail):
+        rep.violations.append({"label": what, "signature": {"what": what, "part": "rebinding"}, "replay": {"detail": detail}, "reproduced": True, "detail": detail})
+
+    def loop():
+        designs = []
+        for k in (1, 2, 3):
+            designs.append((k, design_matrices("y ~ 0 + I(x ** k)", df)))
+        return designs
+
+    for k, dm in loop():
+        got = np.asarray(dm.common.evaluate_new_data(df).design_matrix, dtype=float).reshape(-1)
+        if not np.array_equal(got, df["x"].values ** k):
+            bad("a later design (or a re-bound local of the caller) changed the evaluations of an existing design", f"design built with k={k} evaluates new data as {got.tolist()}")
+            break
+    ns = {"f": np.log, "c": 2.0}
+    dm = design_matrices("y ~ 0 + f(x) + I(x * c)", df, extra_namespace=ns)
+    before = np.asarray(dm.common.evaluate_new_data(df).design_matrix, dtype=float)
+    ns["f"], ns["c"] = np.sqrt, 5.0
+    design_matrices("y ~ 0 + f(x) + I(x * c)", df, extra_namespace=ns)
+    after = np.asarray(dm.common.evaluate_new_data(df).design_matrix, dtype=float)
+    if not np.array_equal(before, after):
+        bad("replacing an entry of the caller's extra_namespace changed the evaluations of an existing design", f"{before.tolist()} -> {after.tolist()}")
+    rep.extra["rebinding_scenarios"] = 2
+
+
 def run(tier, seed):
     harness.tier = tier
     rep = core.Report(ID, tier, seed)
@@ -402,5 +435,6 @@ def run(tier, seed):
     pipe.run_cases(rep, "vf.props.c07", "harness", cs)
     determinism_across_processes(rep)
     caller_objects_untouched(rep)
+    later_rebinding(rep)
     rep.nontrivial = int(rep.stats.get("paths", 0))
     return core.finish(rep)
